@@ -159,6 +159,16 @@ class NumericEncoder(Encoder[float]):
             except:
                 yield float('nan')
 
+class _Lookup(dict):
+    """A dict that answers an unknown key with a default without storing the key (unlike a defaultdict of a lambda it can be pickled)."""
+
+    def __init__(self, default: Any, items) -> None:
+        super().__init__(items)
+        self.default = default
+
+    def __missing__(self, key: Any) -> Any:
+        return self.default
+
 class OneHotEncoder(Encoder[Tuple[int,...]]):
     """An Encoder implementation that turns incoming values into a one hot representation."""
 
@@ -189,7 +199,7 @@ class OneHotEncoder(Encoder[Tuple[int,...]]):
             if self._err_if_unknown:
                 self._onehots = dict(keys_and_values)
             else:
-                self._onehots = defaultdict(lambda:self._default, keys_and_values)
+                self._onehots = _Lookup(self._default, keys_and_values)
 
     @property
     def is_fit(self) -> bool:
@@ -272,7 +282,7 @@ class FactorEncoder(Encoder[int]):
             levels  = [ i + 1 for i in range(len(values)) ]
 
             pairs = zip(values, levels)
-            self._levels = dict(pairs) if self._err_if_unknown else defaultdict(lambda: float('nan'), pairs)
+            self._levels = dict(pairs) if self._err_if_unknown else _Lookup(float('nan'), pairs)
 
     @property
     def is_fit(self) -> bool:
